@@ -18,6 +18,7 @@ mod c03;
 mod c09;
 mod c07;
 mod c06;
+mod c17;
 
 use util::Ctx;
 
@@ -57,6 +58,7 @@ fn main() {
         ("gen", "C09") => c09::gen(&mut ctx),
         ("gen", "C07") => c07::gen(&mut ctx),
         ("gen", "C06") => c06::gen(&mut ctx),
+        ("gen", "C17") => c17::gen(&mut ctx),
         _ => { eprintln!("unknown command"); std::process::exit(2); }
     }
     ctx.finish(stats.as_deref());
